@@ -74,6 +74,10 @@ const VIAS: [Via; 5] = [Via::Ctor, Via::Add, Via::With, Via::Mixed, Via::Channel
 struct Config {
     list: Vec<usize>,
     via: Via,
+    /// status code of the response (the header policy does not depend on it)
+    status: u16,
+    /// the status is set with with_status_code AFTER the headers were supplied
+    status_last: bool,
 }
 
 fn max_len(tier: Tier) -> usize {
@@ -106,7 +110,7 @@ fn decode(idx: u64, tier: Tier) -> Config {
         i /= a;
     }
     list.reverse();
-    Config { list, via }
+    Config { list, via, status: 200, status_last: false }
 }
 
 fn is_protected(n: &str) -> bool {
@@ -139,7 +143,8 @@ fn judge(cfg: &Config) -> Result<String, (String, String)> {
     let supplied: Vec<(String, String)> = cfg.list.iter().map(|&i| at[i].clone()).collect();
     let hdr = |p: &(String, String)| Header::from_bytes(p.0.as_bytes(), p.1.as_bytes()).unwrap();
     let data = b"abcde".to_vec();
-    let mk = |hs: Vec<Header>| Response::new(StatusCode(200), hs, Cursor::new(data.clone()), Some(5), None);
+    let st0 = StatusCode(if cfg.status_last { 200 } else { cfg.status });
+    let mk = |hs: Vec<Header>| Response::new(st0.clone(), hs, Cursor::new(data.clone()), Some(5), None);
     let resp = match cfg.via {
         Via::Ctor => mk(supplied.iter().map(hdr).collect()),
         Via::Add => {
@@ -162,7 +167,7 @@ fn judge(cfg: &Config) -> Result<String, (String, String)> {
                 let _ = tx.send(hdr(p));
             }
             drop(tx);
-            Response::new(StatusCode(200), vec![], Cursor::new(data.clone()), Some(5), Some(rx))
+            Response::new(st0.clone(), vec![], Cursor::new(data.clone()), Some(5), Some(rx))
         }
         Via::Mixed => {
             let k = (supplied.len() + 1) / 2;
@@ -177,6 +182,7 @@ fn judge(cfg: &Config) -> Result<String, (String, String)> {
             r
         }
     };
+    let resp = if cfg.status_last { resp.with_status_code(StatusCode(cfg.status)) } else { resp };
     // a supplied Content-Length only sets the declared length
     let want_len = supplied
         .iter()
@@ -199,6 +205,9 @@ fn judge(cfg: &Config) -> Result<String, (String, String)> {
     let t1 = SystemTime::now();
     let m = crate::httpparse::parse_one(&out, 0, false)
         .map_err(|e| ("malformed".to_string(), e.what))?;
+    if m.status != cfg.status {
+        return Err(("status".into(), format!("status {} printed for {}", m.status, cfg.status)));
+    }
     // split the header block: automatic headers vs. application headers
     let mut app: Vec<(String, String)> = Vec::new();
     let mut dates = Vec::new();
@@ -525,7 +534,7 @@ fn run_cfg(cfg: &Config, acc: &mut Acc) {
     let at = atoms();
     let desc = || {
         json!({"headers": cfg.list.iter().map(|&i| format!("{}: {}", at[i].0, at[i].1)).collect::<Vec<_>>(),
-               "via": format!("{:?}", cfg.via), "list": cfg.list})
+               "via": format!("{:?}", cfg.via), "list": cfg.list, "status": cfg.status, "status_last": cfg.status_last})
     };
     match judge(cfg) {
         Ok(class) => {
@@ -549,12 +558,30 @@ impl Check for C19 {
         "exploration"
     }
     fn n_items(&self, tier: Tier) -> u64 {
-        n_lists(tier) * 5 + 1
+        n_lists(tier) * 5 + 1 + 9
     }
     fn chunk(&self, _tier: Tier) -> u64 {
         2_000
     }
     fn run_item(&self, idx: u64, tier: Tier, acc: &mut Acc) {
+        if idx > n_lists(tier) * 5 {
+            // every status code 100..=999 (one item per hundred): the policy is the same for all
+            let hundred = idx - n_lists(tier) * 5 - 1;
+            let at = atoms();
+            let find = |name: &str| at.iter().position(|(n, _)| n == name).unwrap_or(0);
+            let (conn, trailer, te, up, xa, ct) = (find("Connection"), find("Trailer"), find("Transfer-Encoding"), find("Upgrade"), find("X-A"), find("Content-Type"));
+            let lists: Vec<Vec<usize>> = vec![vec![conn], vec![trailer], vec![te], vec![up], vec![xa, up, conn, xa], vec![ct, trailer, te, ct]];
+            for status in (100 + hundred * 100)..(200 + hundred * 100) {
+                for list in &lists {
+                    for via in VIAS {
+                        for status_last in [false, true] {
+                            run_cfg(&Config { list: list.clone(), via, status: status as u16, status_last }, acc);
+                        }
+                    }
+                }
+            }
+            return;
+        }
         if idx == n_lists(tier) * 5 {
             match constructors() {
                 Ok(n) => {
@@ -591,7 +618,7 @@ impl Check for C19 {
     }
     fn rule(&self, tier: Tier) -> String {
         format!(
-            "the Date header with the wall clock (hook H6) moved to one instant on every day of 2024-2028, to 2000-02-29 / 2038-01-19 / 2100-03-01 / 9999-12-31, and stepped on one thread over second, minute, hour, day, month and year boundaries (compared with an IMF-fixdate computed from first principles); entry points: constructor list, add_header, with_header, a mix, and the channel argument of Response::new (quick: lists shorter than the maximal length; also with 1..5 headers of which 0..all are queued beforehand and the others are sent by a second thread 30 ms after the constructor was entered, back to back or 10 ms apart, the sender dropped last: all of them are printed); 1000 application headers through each entry point (order and multiplicity), from_string of 1 MiB + 1; all header lists of length 0..{} over {} atoms (Connection, Trailer, Transfer-Encoding, Upgrade, Content-Length valid/invalid, Content-Type x4, Date, Server, X-A x3, X-B; canonical/lower/upper case names) x 4 ways of supplying them (constructor, add_header, with_header, mixed) = {} responses, printed and compared with the reference header policy; plus the constructor cases (from_string ASCII/2-byte/4-byte UTF-8/70000 bytes, from_data, from_file 0/5/70000 bytes, empty, with_data); non-trivial = non-empty list",
+            "the Date header with the wall clock (hook H6) moved to one instant on every day of 2024-2028, to 2000-02-29 / 2038-01-19 / 2100-03-01 / 9999-12-31, and stepped on one thread over second, minute, hour, day, month and year boundaries (compared with an IMF-fixdate computed from first principles); every status code 100..999 x 6 lists containing each protected name (alone and among others) x the five entry points x status given to the constructor or set afterwards with with_status_code; entry points: constructor list, add_header, with_header, a mix, and the channel argument of Response::new (quick: lists shorter than the maximal length; also with 1..5 headers of which 0..all are queued beforehand and the others are sent by a second thread 30 ms after the constructor was entered, back to back or 10 ms apart, the sender dropped last: all of them are printed); 1000 application headers through each entry point (order and multiplicity), from_string of 1 MiB + 1; all header lists of length 0..{} over {} atoms (Connection, Trailer, Transfer-Encoding, Upgrade, Content-Length valid/invalid, Content-Type x4, Date, Server, X-A x3, X-B; canonical/lower/upper case names) x 4 ways of supplying them (constructor, add_header, with_header, mixed) = {} responses, printed and compared with the reference header policy; plus the constructor cases (from_string ASCII/2-byte/4-byte UTF-8/70000 bytes, from_data, from_file 0/5/70000 bytes, empty, with_data); non-trivial = non-empty list",
             max_len(tier), atoms().len(), n_lists(tier) * 5
         )
     }
@@ -616,6 +643,8 @@ impl Check for C19 {
             Some("Channel") => Via::Channel,
             _ => Via::Ctor,
         };
-        run_cfg(&Config { list, via }, acc);
+        let status = replay["status"].as_u64().unwrap_or(200) as u16;
+        let status_last = replay["status_last"].as_bool().unwrap_or(false);
+        run_cfg(&Config { list, via, status, status_last }, acc);
     }
 }
